@@ -11,10 +11,13 @@ Proof.
   intros H. unfold Casts.slice_get, Rawdata.get, buf_len. rewrite (proj2 (Z.leb_le 0 i) H). reflexivity.
 Qed.
 
+Lemma slice_set_nat_upd (buf : list Z) n v : Casts.slice_set_nat buf n v = upd buf n v.
+Proof. revert n. induction buf as [|x r IH]; intros [|n]; cbn; try reflexivity. rewrite IH. reflexivity. Qed.
+
 Lemma slice_set_eq buf i v : 0 <= i -> Casts.slice_set buf i v = upd buf (Z.to_nat i) v.
 Proof.
   intros H. unfold Casts.slice_set. rewrite (proj2 (Z.leb_le 0 i) H).
-  reflexivity.
+  apply slice_set_nat_upd.
 Qed.
 
 Lemma src_load_bits_eq t alt buf index :
@@ -39,9 +42,19 @@ Proof. intros H. change 255 with (Z.ones 8). rewrite Z.land_ones by lia. apply Z
 
 Lemma store_byte_eq t bit v byte :
   0 < bits t < 8 -> 0 <= bit -> bit + bits t <= 8 -> 0 <= v <= mask t ->
-  Z.lor (Z.land byte (255 - Z.shiftl (mask t) bit)) (Z.shiftl (Casts.extern_id t v) bit) = store_byte t bit v byte.
+  Z.lor (Z.land byte (255 - Casts.shl_u8 (mask t) bit)) (Casts.shl_u8 (Casts.extern_id t v) bit) = store_byte t bit v byte.
 Proof.
   intros Hb H0 H8 Hv. unfold store_byte, not8, u8, Casts.extern_id.
+  assert (Em : Casts.shl_u8 (mask t) bit = Z.shiftl (mask t) bit).
+  { apply Casts.shl_u8_id. rewrite Z.shiftl_mul_pow2 by lia. unfold min_u8, max_u8.
+    assert (B : bit = 0 \/ bit = 1 \/ bit = 2 \/ bit = 3 \/ bit = 4 \/ bit = 5 \/ bit = 6 \/ bit = 7) by lia.
+    destruct (sub_byte_cases t Hb) as [->|[->| ->]]; cbn [bits] in H8; repeat (destruct B as [->|B]; try lia); try subst bit; cbn; lia. }
+  assert (Ev : Casts.shl_u8 v bit = Z.shiftl v bit).
+  { apply Casts.shl_u8_id. rewrite Z.shiftl_mul_pow2 by lia. unfold min_u8, max_u8.
+    assert (B : bit = 0 \/ bit = 1 \/ bit = 2 \/ bit = 3 \/ bit = 4 \/ bit = 5 \/ bit = 6 \/ bit = 7) by lia.
+    destruct (sub_byte_cases t Hb) as [->|[->| ->]]; cbn [bits] in H8; change (mask U1) with 1 in *; change (mask U2) with 3 in *; change (mask U4) with 15 in *;
+      repeat (destruct B as [->|B]; try lia); try subst bit; cbn; lia. }
+  rewrite Em, Ev. clear Em Ev.
   assert (B : bit = 0 \/ bit = 1 \/ bit = 2 \/ bit = 3 \/ bit = 4 \/ bit = 5 \/ bit = 6 \/ bit = 7) by lia.
   assert (E : Z.shiftl v bit = v * 2 ^ bit) by (apply Z.shiftl_mul_pow2; lia).
   destruct (sub_byte_cases t Hb) as [->|[->| ->]]; cbn [bits] in H8;
